@@ -358,6 +358,18 @@ class FlowRobust:
             _, a, pk = v5mod.PROP.gen_case(rng).split()
             raw = bytes.fromhex(pk[1:])[:24 + 48 * 3]
             out += ["nf5 %s %s" % (a, hx(raw[:n])) for n in range(len(raw) + 1)]
+        # histories spread over TWO lives of the collector: templates learnt, saved, loaded by the next life (and by another process), then
+        # data and re-announcements: whatever a decoder keeps beside the specifiers of a template is not in the file
+        try:
+            from props import c11
+            p11 = c11.P()
+            for p in ("ipfix", "nf9"):
+                g = gens[p]
+                for _ in range(6 if tier == "quick" else 60):
+                    s_, tpls_ = p11.setup(g, rng, p)
+                    out.append("cachert %s FULL S %s H %s" % (p, s_, p11.hist(g, rng, p, tpls_, force=True)))
+        except Exception:
+            pass
         for i in range(budget):
             proto = self.protos[i % len(self.protos)]
             if proto == "nf5":
@@ -377,6 +389,11 @@ class FlowRobust:
         return SEP.join(re.sub(r" J:x[0-9a-f]*$", " J:x", x) for x in o.split(SEP))
 
     def judge(self, line, impl, model):
+        if line.startswith("cachert "):
+            # a history spread over two lives of the collector (templates saved, loaded, then data): it must not crash either
+            if "PANIC" in impl or "HANG" in impl or "CRASH" in impl:
+                return "PANIC: a collector restarted on its saved template cache crashes (or hangs) on this history: %s" % (impl[:80] + " ... " + impl[-80:])
+            return None
         if "PANIC" in impl or impl.startswith("CRASH"):
             return "PANIC: processing this history crashes the collector: %s" % impl[-60:]
         if "HANG" in impl:
@@ -389,6 +406,8 @@ class FlowRobust:
 
     def classify(self, line, impl, model):
         proto = line.split(" ", 1)[0]
+        if proto == "cachert":
+            return ("two lives: " + line.split(" ")[1], line if impl.startswith("T:") else None)
         if proto == "sflow":
             return ("sflow:%s" % ("published" if model.startswith("{") else model[:8]), line)
         kinds = [o.split(" ")[0] for o in model.split(SEP)]
